@@ -32,7 +32,22 @@ pub fn vx_u16_from_be_bytes(a: [u8; 2]) -> (r: u16) ensures r == spec_u16_from_b
 pub fn vx_u32_from_be_bytes(a: [u8; 4]) -> (r: u32) ensures r == spec_u32_from_be(a@) { u32::from_be_bytes(a) }
 #[verifier::external_body]
 pub fn vx_u32_from_ne_bytes(a: [u8; 4]) -> (r: u32) ensures r == spec_u32_from_ne(a@) { u32::from_ne_bytes(a) }
+// little-endian forms: the repository uses none; they exist so that a change of byte order is decided, not unsupported
+pub open spec fn spec_u16_from_le(b: Seq<u8>) -> u16 { ((b[1] as u16) * 256 + (b[0] as u16)) as u16 }
+pub open spec fn spec_u32_from_le(b: Seq<u8>) -> u32 {
+    ((b[3] as u32) * 0x1000000 + (b[2] as u32) * 0x10000 + (b[1] as u32) * 0x100 + (b[0] as u32)) as u32
+}
+#[verifier::external_body]
+pub fn vx_u16_from_le_slice(s: &[u8]) -> (r: u16) requires s@.len() == 2, ensures r == spec_u16_from_le(s@) { u16::from_le_bytes(s.try_into().unwrap()) }
+#[verifier::external_body]
+pub fn vx_u32_from_le_slice(s: &[u8]) -> (r: u32) requires s@.len() == 4, ensures r == spec_u32_from_le(s@) { u32::from_le_bytes(s.try_into().unwrap()) }
+#[verifier::external_body]
+pub fn vx_u16_from_le_bytes(a: [u8; 2]) -> (r: u16) ensures r == spec_u16_from_le(a@) { u16::from_le_bytes(a) }
+#[verifier::external_body]
+pub fn vx_u32_from_le_bytes(a: [u8; 4]) -> (r: u32) ensures r == spec_u32_from_le(a@) { u32::from_le_bytes(a) }
 pub trait VxIntBytes<const N: usize>: Sized {
+    spec fn vx_le(self) -> Seq<u8>;
+    fn vx_to_le_bytes(self) -> (r: [u8; N]) ensures r@ == self.vx_le();
     spec fn vx_be(self) -> Seq<u8>;
     spec fn vx_ne(self) -> Seq<u8>;
     fn vx_to_be_bytes(self) -> (r: [u8; N]) ensures r@ == self.vx_be();
@@ -43,6 +58,8 @@ impl VxIntBytes<2> for u16 {
     open spec fn vx_ne(self) -> Seq<u8> { spec_u16_to_ne(self) }
     #[verifier::external_body] fn vx_to_be_bytes(self) -> (r: [u8; 2]) { self.to_be_bytes() }
     #[verifier::external_body] fn vx_to_ne_bytes(self) -> (r: [u8; 2]) { self.to_ne_bytes() }
+    open spec fn vx_le(self) -> Seq<u8> { seq![(self % 256) as u8, (self / 256) as u8] }
+    #[verifier::external_body] fn vx_to_le_bytes(self) -> (r: [u8; 2]) { self.to_le_bytes() }
 }
 impl VxIntBytes<4> for u32 {
     open spec fn vx_be(self) -> Seq<u8> {
@@ -51,6 +68,10 @@ impl VxIntBytes<4> for u32 {
     open spec fn vx_ne(self) -> Seq<u8> { spec_u32_to_ne(self) }
     #[verifier::external_body] fn vx_to_be_bytes(self) -> (r: [u8; 4]) { self.to_be_bytes() }
     #[verifier::external_body] fn vx_to_ne_bytes(self) -> (r: [u8; 4]) { self.to_ne_bytes() }
+    open spec fn vx_le(self) -> Seq<u8> {
+        seq![(self % 256) as u8, ((self / 256) % 256) as u8, ((self / 0x10000) % 256) as u8, (self / 0x1000000) as u8]
+    }
+    #[verifier::external_body] fn vx_to_le_bytes(self) -> (r: [u8; 4]) { self.to_le_bytes() }
 }
 pub assume_specification<T: Clone> [<[T]>::to_vec] (s: &[T]) -> (r: Vec<T>)
     ensures r@ == s@;
